@@ -37,6 +37,7 @@ func extraFacts(lf *leanFile) {
 	tarfsFacts(lf)
 	compactFacts(lf)
 	lockFacts(lf)
+	errutilFacts(lf)
 	refFacts(lf)
 	copyFacts(lf)
 }
